@@ -51,6 +51,21 @@ def py_values(thorough):
     yield "wide", {"k%d" % i: i for i in range(12)}
     yield "list-of-maps", [{"a": 1, "b": "x"}, {"a": 2, "b": "y"}]
     yield "key-order", {"z": 1, "a": 2, "m": 3}
+    # the same key names on several levels: every mapping over the keys a, b (one or both, in both orders) whose values are
+    # a number, such a mapping again, or a list holding one -- two levels deep (added after a sixth-round seeded change:
+    # a scratch set of seen keys shared between a mapping and the mappings inside it)
+    def same_keys(depth):
+        if depth == 0:
+            return [1]
+        sub = same_keys(depth - 1)
+        maps = []
+        for keys in (("a",), ("a", "b"), ("b", "a")):
+            for vals in itertools.product(sub, repeat=len(keys)):
+                maps.append(dict(zip(keys, vals)))
+        return [1] + maps + [[m] for m in maps]
+    for v in same_keys(2):
+        if isinstance(v, dict) and any(x != 1 for x in v.values()):
+            yield "same-keys-on-several-levels", v
 
 
 def expected_wire(v):
